@@ -1560,7 +1560,11 @@ def struct_corpus(tier):
     add("jnp_concat", "concatenate([x, y], axis=0) - 1", lambda x, y: jnp.concatenate([x, y], axis=0) - 1, [(2, 3), (1, 3)])
     add("slice", "x[1:, ::2] - y", lambda x, y: x[1:, ::2] - y, [(3, 5), (2, 3)])
     add("lax_slice", "lax.slice(x, (0,1), (2,3)) ^ y", lambda x, y: lax.slice(x, (0, 1), (2, 3)) ^ y, [(2, 4), (2, 2)])
+    add("arange", "ravel(x) + arange(6)", lambda x: jnp.ravel(x) + jnp.arange(6, dtype=jnp.int32), [(2, 3)])
+    add("iota2", "x * broadcasted_iota((2,3), 0) + iota(3)",
+        lambda x: x * lax.broadcasted_iota(jnp.int32, (2, 3), 0) + lax.iota(jnp.int32, 3), [(2, 3)])
     if tier != "quick":
+        add("iota3_u8", "x + broadcasted_iota(uint8, (2,3,4), 1)", lambda x: x + lax.broadcasted_iota(jnp.uint8, (2, 3, 4), 1), [(2, 3, 4)], "uint8")
         for dt_ in ("int8", "int16", "uint16", "uint32", "int64"):
             add(f"lax_sum_{dt_}", f"lax.reduce_sum(x, (1,)) [{dt_}]", lambda x: lax.reduce_sum(x, axes=(1,)), [(2, 3)], dt_, small=2)
             if dt_ not in ("int8", "int16"):       # jnp.sum promotes int8 / int16 to int32: Cast + ReduceSum, not modelled
@@ -1764,6 +1768,20 @@ def sprog_model(sp):
                 emit(f"{p}:{src}@{list(axes)}/{rank}", f"GReduce {rk} {sb_lit(src)} {mask}", [operand(ins[0])], o)
             else:
                 raise Unrecognised(f"{prim} {src} -> {out_dt} (dtype={req})")
+        elif p == "iota":
+            shp, dim_, dt_ = tuple(params["shape"]), int(params["dimension"]), str(np.dtype(params["dtype"]))
+            if dt_ not in INT_DTYPES or ins:
+                raise Unrecognised(f"iota of dtype {dt_}")
+            if len(shp) == 1:
+                emit(f"iota:{dt_}[{shp[0]}]", f"GIota1 {sb_lit(dt_)} {shp[0]}%nat", [], o)
+            else:
+                emit(f"iota:{dt_}{list(shp)}@{dim_}", f"GIota {sb_lit(dt_)} {nlist(shp)} {dim_}%nat", [], o)
+        elif p == "jax.numpy.arange":
+            sa = tuple(params.get("static_args", ()))
+            n_ = tuple(oaval.shape)[0]
+            if dtn(oaval) not in INT_DTYPES or not (sa == (n_,) or sa == (0, n_) or sa == (0, n_, 1)):
+                raise Unrecognised(f"arange{sa} of dtype {dtn(oaval)}")
+            emit(f"arange[{n_}]", f"GArange {n_}%nat", [], o)          # the start / stop operands are static: not read
         elif p == "concatenate":
             ax = int(params["dimension"])
             emit(f"concatenate@{ax}x{len(ins)}", f"GConcat {len(ins)}%nat {ax}%nat", [operand(a) for a in ins], o)
@@ -1816,6 +1834,7 @@ def rtree_of_model(model):
     env = {}
     nreal = 0
     ranks = {}
+    sshape = {}
     try:
         import onnx
         bare = onnx.ModelProto()
@@ -1825,6 +1844,8 @@ def rtree_of_model(model):
         for vi in list(inferred.graph.value_info) + list(inferred.graph.input) + list(inferred.graph.output):
             if vi.type.tensor_type.HasField("shape"):
                 ranks[vi.name] = len(vi.type.tensor_type.shape.dim)
+                if all(d_.HasField("dim_value") for d_ in vi.type.tensor_type.shape.dim):
+                    sshape[vi.name] = [int(d_.dim_value) for d_ in vi.type.tensor_type.shape.dim]
     except Exception:  # noqa: BLE001
         pass
     for i in g.input:
@@ -1839,6 +1860,7 @@ def rtree_of_model(model):
         env[i.name] = (dt, f"(RIn {int(mm.group(1))}%nat)")
         nreal += 1
     shapec = {}
+    scalarc = {}
 
     def shapevec(name):
         if name in shapec:
@@ -1910,6 +1932,37 @@ def rtree_of_model(model):
             if ax != list(range(len(st))) or ranks.get(n.input[0]) != len(st) or any(v < 0 for v in st + en) or any(v < 1 for v in sp_):
                 raise Unrecognised(f"Slice starts {st} ends {en} axes {ax} steps {sp_}")
             env[out] = (dt, f"(RSlice {nlist(st)} {nlist(en)} {nlist(sp_)} {x})")
+            continue
+        if op == "Squeeze" and len(n.input) == 2 and n.input[0] in inits and inits[n.input[0]].size == 1 and n.input[0] not in env:
+            # a one-element constant squeezed to a scalar (the limit of Range): constant folding
+            only()
+            scalarc[out] = inits[n.input[0]].reshape(())
+            continue
+        if op == "Range":
+            only()
+
+            def sc(name):
+                if name in scalarc:
+                    return scalarc[name]
+                if name in inits and inits[name].shape == ():
+                    return inits[name]
+                raise Unrecognised(f"Range operand {name} is not a constant scalar")
+            st_, li_, de_ = (sc(x) for x in n.input)
+            if int(st_) != 0 or int(de_) != 1 or int(li_) < 0 or len({st_.dtype, li_.dtype, de_.dtype}) != 1 or st_.dtype.name not in INT_DTYPES:
+                raise Unrecognised(f"Range({st_}, {li_}, {de_})")
+            env[out] = (st_.dtype.name, f"(RRange {int(li_)}%nat)")
+            continue
+        if op == "Unsqueeze":
+            # Unsqueeze(axes) of a statically shaped value IS the Reshape to its extents with 1 inserted at the axes
+            only()
+            dt, x = val(n.input[0])
+            axs = shapevec(n.input[1])
+            ish = sshape.get(n.input[0])
+            if ish is None or any(a_ < 0 for a_ in axs) or len(set(axs)) != len(axs) or max(axs, default=0) >= len(ish) + len(axs):
+                raise Unrecognised(f"Unsqueeze axes {axs} of shape {ish}")
+            it = iter(ish)
+            newsh = [1 if j_ in axs else next(it) for j_ in range(len(ish) + len(axs))]
+            env[out] = (dt, f"(RReshape {nlist(newsh)} {x})")
             continue
         if op in ("Reshape", "Expand", "Squeeze"):
             only("allowzero") if op == "Reshape" else only()
@@ -2037,7 +2090,7 @@ JNP_PROVED = {"abs": "jnp_abs", "add": "jnp_add", "bitwise_and": "jnp_bitwise_an
               "minimum": "jnp_minimum", "right_shift": "jnp_right_shift", "sign": "jnp_sign", "where": "where",
               "pow": "jnp_power2, jnp_power3 (constant exponent)", "power": "jnp_power2, jnp_power3 (constant exponent)"}
 # plugins whose integer lowering is a tensor-level kernel of LiftStruct, exercised by a traced program of corpus (f)
-JNP_TRACED = {"sum": "sum_axis", "prod": "prod_axis", "max": "max_min", "min": "max_min", "all": "any_all", "any": "any_all",
+JNP_TRACED = {"arange": "arange", "sum": "sum_axis", "prod": "prod_axis", "max": "max_min", "min": "max_min", "all": "any_all", "any": "any_all",
               "concatenate": "jnp_concat", "squeeze": "expand_sq", "transpose": "perm3"}
 _FLOAT = "floating-point numerics (not exact)"
 _RED = "reduction / scan over an axis (not an elementwise kernel)"
@@ -2053,7 +2106,7 @@ JNP_NOT_EXACT = {
     "select": "jnp.select (list of conditions): a Where cascade, explored only",
     **{n: _RED for n in ("amax", "amin", "argmax", "argmin", "cumprod", "cumsum", "nancumprod", "mean",
                          "sort", "unique", "searchsorted", "digitize", "histogram", "histogram2d", "histogramdd")},
-    **{n: _MOVE for n in ("arange", "compress", "diag", "diagonal", "eye", "full", "moveaxis", "ones", "pad", "reshape",
+    **{n: _MOVE for n in ("compress", "diag", "diagonal", "eye", "full", "moveaxis", "ones", "pad", "reshape",
                           "shape", "size", "split", "stack", "take", "tile", "trilu", "unstack", "zeros")},
     **{n: _LIN for n in ("dot", "einsum", "matmul", "outer", "linalg.det", "linalg.inv", "linalg.norm", "linalg.solve", "linalg.tensorinv",
                          "linalg.tensorsolve")},
